@@ -283,6 +283,10 @@ func doParsing(mp *msgParser) (err error) {
 		mp.fieldIndex++
 	}
 
+	// The field table was sized by counting separators, which over-counts when XMLData contains
+	// them; drop the unused tail, which holds fields of an earlier parse when the Message is reused.
+	mp.msg.fields = mp.msg.fields[:mp.fieldIndex+1]
+
 	// This will happen if there are no fields in the body
 	if mp.foundTrailer && !mp.foundBody {
 		mp.trailerBytes = mp.rawBytes
